@@ -1469,3 +1469,103 @@ Proof.
   split; [apply (clear_spec _ _ _ Hm)|]. split; [apply (reversed_spec _ _ _ Hm)|].
   intros a ag Ha. apply (index_count_spec _ _ _ Hm a ag Ha).
 Qed.
+
+(* --- select: exactly when does it raise?  When the generator REACHES (before its break) a
+   member on which the filter raises. --- *)
+Lemma reached_mono lim c c' : c <= c' -> reached lim c' = false -> reached lim c = false.
+Proof. destruct lim as [n|]; simpl; [|reflexivity]. intros H1 H2. lia. Qed.
+
+Lemma zlen_nonneg {A} (l : list A) : 0 <= zlen l.
+Proof. unfold zlen. lia. Qed.
+
+Lemma select_loop_none_iff t p ty lim l : forall count,
+  select_loop t p ty lim count l = None <->
+  exists pre a post, l = pre ++ a :: post /\ keep t p ty a = None /\
+    (forall b, In b pre -> keep t p ty b <> None) /\
+    reached lim (count + zlen (filter (keepb t p ty) pre)) = false.
+Proof.
+  induction l as [|x rest IH]; intros count; simpl select_loop.
+  - split; [discriminate|]. intros [pre [a [post [H _]]]]. destruct pre; discriminate.
+  - destruct (reached lim count) eqn:Er.
+    + split; [discriminate|]. intros [pre [a [post [_ [_ [_ Hr]]]]]].
+      apply (reached_mono lim count) in Hr; [congruence|]. pose proof (zlen_nonneg (filter (keepb t p ty) pre)). lia.
+    + destruct (keep t p ty x) as [[|]|] eqn:Ek.
+      * (* kept *)
+        assert (keepb t p ty x = true) as Hkb by (unfold keepb; rewrite Ek; reflexivity).
+        destruct (select_loop t p ty lim (count + 1) rest) eqn:Erec.
+        -- split; [discriminate|]. intros [pre [a [post [Hl [Ha [Hpre Hr]]]]]].
+           destruct pre as [|y pre'].
+           ++ simpl in Hl. inversion Hl. subst. congruence.
+           ++ simpl in Hl. inversion Hl. subst y rest.
+              assert (select_loop t p ty lim (count + 1) (pre' ++ a :: post) = None) as Hn.
+              { apply IH. exists pre', a, post. split; [reflexivity|]. split; [exact Ha|].
+                split; [intros b Hb; apply Hpre; right; exact Hb|].
+                simpl filter in Hr. rewrite Hkb in Hr. unfold zlen in *. simpl length in Hr.
+                replace (count + 1 + Z.of_nat (length (filter (keepb t p ty) pre')))
+                  with (count + Z.of_nat (S (length (filter (keepb t p ty) pre')))) by lia. exact Hr. }
+              congruence.
+        -- split; [|reflexivity]. intros _. apply IH in Erec.
+           destruct Erec as [pre [a [post [Hl [Ha [Hpre Hr]]]]]].
+           exists (x :: pre), a, post. split; [simpl; rewrite Hl; reflexivity|]. split; [exact Ha|]. split.
+           ++ intros b [Hb|Hb]; [subst; congruence|apply Hpre; exact Hb].
+           ++ simpl filter. rewrite Hkb. unfold zlen in *. simpl length.
+              replace (count + Z.of_nat (S (length (filter (keepb t p ty) pre))))
+                with (count + 1 + Z.of_nat (length (filter (keepb t p ty) pre))) by lia. exact Hr.
+      * (* not kept *)
+        assert (keepb t p ty x = false) as Hkb by (unfold keepb; rewrite Ek; reflexivity).
+        rewrite IH. split.
+        -- intros [pre [a [post [Hl [Ha [Hpre Hr]]]]]].
+           exists (x :: pre), a, post. split; [simpl; rewrite Hl; reflexivity|]. split; [exact Ha|]. split.
+           ++ intros b [Hb|Hb]; [subst; congruence|apply Hpre; exact Hb].
+           ++ simpl filter. rewrite Hkb. exact Hr.
+        -- intros [pre [a [post [Hl [Ha [Hpre Hr]]]]]].
+           destruct pre as [|y pre'].
+           ++ simpl in Hl. inversion Hl. subst. congruence.
+           ++ simpl in Hl. inversion Hl. subst y rest.
+              exists pre', a, post. split; [reflexivity|]. split; [exact Ha|].
+              split; [intros b Hb; apply Hpre; right; exact Hb|].
+              simpl filter in Hr. rewrite Hkb in Hr. exact Hr.
+      * (* raises here *)
+        split; [|reflexivity]. intros _. exists [], x, rest. split; [reflexivity|]. split; [exact Ek|].
+        split; [intros b []|]. simpl. unfold zlen. simpl. rewrite Z.add_0_r. exact Er.
+Qed.
+
+Lemma select_none_iff t p am ty m :
+  select_members t p am ty m = None <->
+  is_fast p am ty = false /\
+  exists pre a post, m = pre ++ a :: post /\ keep t p ty a = None /\
+    (forall b, In b pre -> keep t p ty b <> None) /\
+    reached (limit am (zlen m)) (zlen (filter (keepb t p ty) pre)) = false.
+Proof.
+  unfold select_members. destruct (is_fast p am ty).
+  - split; [discriminate|]. intros [H _]. discriminate.
+  - rewrite select_loop_none_iff. unfold zlen. simpl. split.
+    + intros H. split; [reflexivity|exact H].
+    + intros [_ H]. exact H.
+Qed.
+
+(* --- sorting twice by the same key and direction = sorting once --- *)
+Lemma sort_idempotent t k asc m r :
+  sort_members t k asc m = Some r -> sort_members t k asc r = Some r.
+Proof.
+  intros H. destruct (sort_members t k asc r) as [r2|] eqn:E.
+  - f_equal. symmetry. apply (sort_unique t k asc r r2 r E).
+    + apply sort_spec in H. destruct H as [_ [Hs _]]. exact Hs.
+    + intros v. reflexivity.
+  - exfalso. apply sort_none in E. destruct E as [a [Ha Hn]].
+    pose proof (sort_spec _ _ _ _ _ H) as [Hp _].
+    apply sort_members_keys in H. destruct H as [_ Hk].
+    rewrite (Hk a) in Hn; [discriminate|]. eapply Permutation_in; [symmetry; exact Hp|exact Ha].
+Qed.
+
+(* --- select without a limit commutes with itself: filtering twice = filtering by the conjunction --- *)
+Lemma select_twice t p q m r1 r2 :
+  select_members t (Some p) AInf None m = Some r1 ->
+  select_members t (Some q) AInf None r1 = Some r2 ->
+  r2 = filter (fun a => keepb t (Some p) None a && keepb t (Some q) None a) m.
+Proof.
+  intros H1 H2. apply select_spec in H1. apply select_spec in H2. simpl in H1, H2. subst r1 r2.
+  induction m as [|x rest IH]; simpl; [reflexivity|].
+  destruct (keepb t (Some p) None x); simpl; [|exact IH].
+  destruct (keepb t (Some q) None x); [f_equal|]; exact IH.
+Qed.
